@@ -100,6 +100,8 @@ def run(c, a):
     events = []
     for rc, out, outp in res:
         if rc != 0 or not os.path.exists(outp):
+            if c.crash_verdict("Gossip", rc, outp):
+                continue
             raise Broken("harness shard failed rc=%s: %s" % (rc, out[-1500:]))
         for line in open(outp):
             events.append(json.loads(line))
